@@ -4,4 +4,5 @@ REGISTRY = {
     "C06": "machines.knots",
     "C12": "machines.cache",
     "C16": "machines.linalg",
+    "C17": "machines.config",
 }
